@@ -39,6 +39,8 @@ type Call struct {
 	Offset     uint64                  `json:"-"`
 	Length     uint64                  `json:"-"`
 	Set        *rhp4.TransactionSet    `json:"-"`
+	AcctBal    []types.Currency        `json:"-"` // balances of RecContractor.SnapAccts right after a commit
+	PoolBal    []types.Currency        `json:"-"` // balances of RecContractor.SnapPools right after a commit
 }
 
 var globalSeq int64
@@ -79,6 +81,19 @@ type RecContractor struct {
 	// inspect, when set, returns the revision currently held for a contract (used to fill
 	// Call.Prev inside the same critical section).  It must not lock the contract.
 	latest map[types.FileContractID]types.V2FileContract
+	// SnapAccts / SnapPools: accounts and pools whose balances are read (in the same critical
+	// section) right after every committing call
+	SnapAccts []proto4.Account
+	SnapPools []proto4.Account
+}
+
+func (r *RecContractor) snap(c *Call) {
+	if len(r.SnapAccts) > 0 {
+		c.AcctBal, _ = r.Contractor.AccountBalances(r.SnapAccts)
+	}
+	if len(r.SnapPools) > 0 {
+		c.PoolBal, _ = r.Contractor.PoolBalances(r.SnapPools)
+	}
 }
 
 func NewRecContractor(inner rhp4.Contractor, log *Log) *RecContractor {
@@ -150,6 +165,7 @@ func (r *RecContractor) ReviseV2Contract(id types.FileContractID, rev types.V2Fi
 	if err == nil {
 		r.latest[id] = rev
 	}
+	r.snap(&c)
 	r.stamp(&c)
 	r.log.add(c)
 	return err
@@ -164,6 +180,7 @@ func (r *RecContractor) CreditAccountsWithContract(deps []proto4.AccountDeposit,
 	if err == nil {
 		r.latest[id] = rev
 	}
+	r.snap(&c)
 	r.stamp(&c)
 	r.log.add(c)
 	return bal, err
@@ -178,6 +195,7 @@ func (r *RecContractor) CreditPoolsWithContract(deps []proto4.AccountDeposit, id
 	if err == nil {
 		r.latest[id] = rev
 	}
+	r.snap(&c)
 	r.stamp(&c)
 	r.log.add(c)
 	return bal, err
